@@ -8,19 +8,27 @@
      msg.msgRecv                                               -> [p_recv]
      msg.wakeup closed?                                        -> [p_closed]
      the time.After channel has fired?                         -> [p_fired]
+     the timeout argument, its normalised value, msg.expire,
+     the instant the select (and its timer) started             -> [p_time]
      where the call is                                         -> [p_phase]
         Sending   registered, inside ICMP4SendEchoRequest / ICMP6SendEchoRequest
         Waiting   blocked in the select (the timer is armed HERE, after the send)
         Returned r
 
+   Time: [clock] is the current instant (Z nanoseconds); it moves only by the event [Tick t].
+   Ping/Ping6 FIRST normalise their timeout argument ([eff_timeout]: a value <= 0 or above 10 s
+   means the 2 s default) and only then build the waiter (msg.expire = now + normalised timeout;
+   the field is written and NOTHING reads it: echoNotify completes a waiter whatever its expire)
+   and, after the send, arm time.After(normalised timeout).
+
    Events, in the order the code performs them (one critical section or one channel operation
    each; any event of any other goroutine may happen between two of them):
-     Begin p      icmpRegister: lock; if all 65536 identifiers are in the table: unlock and return an
+     Begin p tmo  (tmo = the timeout argument of the call) icmpRegister: lock; if all 65536 identifiers are in the table: unlock and return an
                   error (the call never registers).  Otherwise id := table.id; table.id++ (uint16
                   wrap), repeated while table[id] exists (identifiers still waited for are skipped,
                   /repo since the wrap repair); table[id] = &msg; unlock.  The waiter is in the
                   table BEFORE the request is sent.
-     Sent p ok    the send returned.  ok=true: the call enters its select.  ok=false: the send
+     Sent p ok    the send returned.  ok=true: the call enters its select and arms its timer now.  ok=false: the send
                   returned an error (invalid address family, Conn.WriteTo failed); the call does
                   lock; if table[id] == &msg { delete(table, id) }; unlock and returns the error
                   ([fix24 = true], /repo since 659869d; [fix24 = false] is the code before: the entry
@@ -33,7 +41,9 @@
      Notify i     Session.Parse reached echoNotify(i): if table[i] exists: msgRecv = true,
                   close(wakeup), delete(table, i) — whatever the owner is doing (also during its send).
      Skip         Session.Parse of a frame that does not reach echoNotify (no access to the table).
-     Timeout p    the timer of call p fires (real time enters the model only here).
+     Tick t       time passes: clock := t (t >= clock).
+     Timeout p    the timer of call p fires: enabled once clock >= (instant the select started) +
+                  (normalised timeout).
      End p        the select of call p returns (enabled when wakeup is closed or the timer fired);
                   lock; if table[id] == &msg { delete(table, id) } (after a reply the entry is gone
                   and the identifier may belong to a newer call); unlock; return nil if msgRecv else
@@ -49,20 +59,34 @@ Definition pid := nat.
 Inductive result : Set := RNil | RTimeout | RSendErr | RBusy.
 Inductive phase : Set := Sending | Waiting | Returned (r : result).
 
+(* if timeout <= 0 || timeout > time.Second*10 { timeout = time.Second * 2 } *)
+Definition SECOND : Z := 1000000000%Z.
+Definition eff_timeout (t : Z) : Z :=
+  if (t <=? 0)%Z || (10 * SECOND <? t)%Z then (2 * SECOND)%Z else t.
+
+Record ptime := mkPT {
+  t_raw : Z;       (* the timeout argument *)
+  t_eff : Z;       (* after normalisation *)
+  t_expire : Z;    (* msg.expire (never read) *)
+  t_armed : Z      (* instant time.After(t_eff) was armed (0 before the select) *)
+}.
+
 Record ping := mkPing {
   p_id : id;
   p_recv : bool;
   p_closed : bool;
   p_fired : bool;
   p_phase : phase;
-  p_seq : N
+  p_seq : N;
+  p_time : ptime
 }.
 
 Record state := mkState {
   tbl : list (id * pid);
   next : id;
   pings : list (pid * ping);
-  cnt : N
+  cnt : N;
+  clock : Z
 }.
 
 (* Go map on uint16 keys as an association list without duplicate keys *)
@@ -112,20 +136,21 @@ Fixpoint pset (l : list (pid * ping)) (p : pid) (v : ping) : list (pid * ping) :
   end.
 
 Inductive event : Set :=
-| Begin (p : pid)
+| Begin (p : pid) (tmo : Z)
 | Sent (p : pid) (ok : bool)
 | BulkFail (n : N)
 | Notify (i : id)
 | Skip
+| Tick (t : Z)
 | Timeout (p : pid)
 | End (p : pid).
 
-Definition init (n : id) : state := mkState [] n [] 0.
+Definition init (n : id) : state := mkState [] n [] 0 0%Z.
 (* the library starts with icmpTable.id = 1 *)
 Definition init_go : state := init 1.
 
 Definition set_pings (s : state) (l : list (pid * ping)) : state :=
-  mkState (tbl s) (next s) l (cnt s).
+  mkState (tbl s) (next s) l (cnt s) (clock s).
 
 Definition outstanding (pg : ping) : bool :=
   match p_phase pg with Returned _ => false | _ => true end.
@@ -134,18 +159,21 @@ Definition outstanding (pg : ping) : bool :=
    Panic = the Go code would panic (close of a closed channel). *)
 Definition step (fix24 : bool) (s : state) (e : event) : res state :=
   match e with
-  | Begin p =>
+  | Begin p tmo =>
       match pget (pings s) p with
       | Some _ => Err EOther
       | None =>
           if table_full (tbl s) then
-            Ok (set_pings s (pset (pings s) p (mkPing (next s) false false false (Returned RBusy) (cnt s))))
+            Ok (set_pings s (pset (pings s) p
+                  (mkPing (next s) false false false (Returned RBusy) (cnt s)
+                     (mkPT tmo (eff_timeout tmo) (clock s + eff_timeout tmo) 0))))
           else
             match alloc (tbl s) (next s) with
             | None => Fuel
             | Some i =>
-                let pg := mkPing i false false false Sending (cnt s) in
-                Ok (mkState (tset (tbl s) i p) (u16 (i + 1)) (pset (pings s) p pg) (cnt s + 1))
+                let pg := mkPing i false false false Sending (cnt s)
+                            (mkPT tmo (eff_timeout tmo) (clock s + eff_timeout tmo) 0) in
+                Ok (mkState (tset (tbl s) i p) (u16 (i + 1)) (pset (pings s) p pg) (cnt s + 1) (clock s))
             end
       end
   | Sent p ok =>
@@ -155,20 +183,21 @@ Definition step (fix24 : bool) (s : state) (e : event) : res state :=
           | Sending =>
               if ok then
                 Ok (set_pings s (pset (pings s) p
-                      (mkPing (p_id pg) (p_recv pg) (p_closed pg) (p_fired pg) Waiting (p_seq pg))))
+                      (mkPing (p_id pg) (p_recv pg) (p_closed pg) (p_fired pg) Waiting (p_seq pg)
+                         (mkPT (t_raw (p_time pg)) (t_eff (p_time pg)) (t_expire (p_time pg)) (clock s)))))
               else
                 Ok (mkState (if fix24 then tdel_own (tbl s) (p_id pg) p else tbl s) (next s)
                       (pset (pings s) p
                          (mkPing (p_id pg) (p_recv pg) (p_closed pg) (p_fired pg)
-                            (Returned RSendErr) (p_seq pg)))
-                      (cnt s))
+                            (Returned RSendErr) (p_seq pg) (p_time pg)))
+                      (cnt s) (clock s))
           | _ => Err EOther
           end
       | None => Err EOther
       end
   | BulkFail n =>
       if fix24 && (n <=? 65536) then
-        Ok (mkState (tbl s) (N.iter n (bump (tbl s)) (next s)) (pings s) (cnt s + n))
+        Ok (mkState (tbl s) (N.iter n (bump (tbl s)) (next s)) (pings s) (cnt s + n) (clock s))
       else Err EOther
   | Notify i =>
       (* the early return on an empty table has no effect of its own *)
@@ -181,17 +210,22 @@ Definition step (fix24 : bool) (s : state) (e : event) : res state :=
               if p_closed pg then Panic
               else Ok (mkState (tdel (tbl s) i) (next s)
                          (pset (pings s) q
-                            (mkPing (p_id pg) true true (p_fired pg) (p_phase pg) (p_seq pg)))
-                         (cnt s))
+                            (mkPing (p_id pg) true true (p_fired pg) (p_phase pg) (p_seq pg) (p_time pg)))
+                         (cnt s) (clock s))
           end
       end
   | Skip => Ok s
+  | Tick t =>
+      if (clock s <=? t)%Z then Ok (mkState (tbl s) (next s) (pings s) (cnt s) t) else Err EOther
   | Timeout p =>
       match pget (pings s) p with
       | Some pg =>
           match p_phase pg with
-          | Waiting => Ok (set_pings s (pset (pings s) p
-                         (mkPing (p_id pg) (p_recv pg) (p_closed pg) true Waiting (p_seq pg))))
+          | Waiting =>
+              if (t_armed (p_time pg) + t_eff (p_time pg) <=? clock s)%Z then
+                Ok (set_pings s (pset (pings s) p
+                      (mkPing (p_id pg) (p_recv pg) (p_closed pg) true Waiting (p_seq pg) (p_time pg))))
+              else Err EOther
           | _ => Err EOther
           end
       | None => Err EOther
@@ -205,8 +239,8 @@ Definition step (fix24 : bool) (s : state) (e : event) : res state :=
                 Ok (mkState (tdel_own (tbl s) (p_id pg) p) (next s)
                       (pset (pings s) p
                          (mkPing (p_id pg) (p_recv pg) (p_closed pg) (p_fired pg)
-                            (Returned (if p_recv pg then RNil else RTimeout)) (p_seq pg)))
-                      (cnt s))
+                            (Returned (if p_recv pg then RNil else RTimeout)) (p_seq pg) (p_time pg)))
+                      (cnt s) (clock s))
               else Err EOther
           | _ => Err EOther
           end
